@@ -223,6 +223,14 @@ class StmtMixin:
             st.set_list(base.ty, base.t, elems=z3.Store(st.list_elems(base.ty, base.t), ii,
                                                         self.coerce(v, base.ty.args[0], st).t))
             return
+        if base.ty.kind == "obj" and idx.ty.kind == "str" and z3.is_string_value(idx.t):
+            f = idx.t.as_string()
+            decl = self.reg.classes.get(base.ty.args[0])
+            if decl is None or f not in decl["fields"]:
+                raise Unsupported("record %s has no field %r" % (base.ty.args[0], f))
+            fty = decl["fields"][f]
+            st.set_field(base.ty.args[0], f, fty, base.t, self.coerce(v, fty, st).t)
+            return
         raise Unsupported("item assignment on %r (line %s)" % (base.ty, node.lineno))
 
     def exec_AugAssign(self, node, st):
@@ -525,6 +533,39 @@ class StmtMixin:
                 if n in o.locals and n not in E.locals:
                     newtypes.setdefault(n, o.locals[n])
         plan = {}
+        written = set(w.keys())
+
+        def arr_base(nm):
+            if nm.startswith("H0."):
+                return nm[3:]
+            return nm.rsplit("!", 1)[0] if "!" in nm else nm
+
+        def classify(r):
+            """'stable' | 'local' (allocated inside the iteration) | 'varying'"""
+            if z3.is_const(r) and r.decl().kind() == z3.Z3_OP_UNINTERPRETED and r.decl().name().startswith("ref!"):
+                nm = r.decl().name()
+                return "local" if int(nm.rsplit("!", 1)[1]) >= mark else "stable"
+            todo = [r]
+            seen = set()
+            while todo:
+                x = todo.pop()
+                if x.get_id() in seen:
+                    continue
+                seen.add(x.get_id())
+                if z3.is_const(x) and x.decl().kind() == z3.Z3_OP_UNINTERPRETED:
+                    nm = x.decl().name()
+                    if z3.is_array(x):
+                        if arr_base(nm) in written:
+                            return "varying"
+                    else:
+                        num = int(nm.rsplit("!", 1)[1]) if "!" in nm and nm.rsplit("!", 1)[1].isdigit() else -1
+                        if num >= mark:
+                            return "varying"
+                elif z3.is_var(x) or z3.is_quantifier(x):
+                    return "varying"
+                todo.extend(x.children())
+            return "stable"
+
         for name, refs in w.items():
             if refs == "ALL":
                 plan[name] = "ALL"
@@ -532,16 +573,10 @@ class StmtMixin:
             stable = []
             allp = False
             for r in refs:
-                if z3.is_const(r) and r.decl().kind() == z3.Z3_OP_UNINTERPRETED:
-                    nm = r.decl().name()
-                    num = int(nm.rsplit("!", 1)[1]) if "!" in nm else -1
-                    if num < mark:
-                        stable.append(r)
-                    elif nm.startswith("ref!"):
-                        pass  # allocated inside the iteration
-                    else:
-                        allp = True
-                else:
+                c = classify(r)
+                if c == "stable":
+                    stable.append(r)
+                elif c == "varying":
                     allp = True
             plan[name] = "ALL" if allp else stable
         return plan, newtypes
